@@ -830,6 +830,10 @@ fn enumerate_faults(scn: &Scenario) -> Vec<Vec<Fault>> {
     let len = scn.rendered.bytes().len();
     let mut out: Vec<Vec<Fault>> = vec![];
     // number of read() calls of a fault-free load with 7-byte reads
+    // every read returns 1, 2 or 3 bytes: every boundary between two reads, at every position
+    for k in 1..=3usize {
+        out.push(vec![Fault::ShortRead { sizes: vec![k] }]);
+    }
     let short = Fault::ShortRead { sizes: vec![7] };
     let calls = (len / 7 + 3) as u64;
     for c in 1..=calls {
